@@ -117,10 +117,11 @@ Theorem C32_ptp : forall a b k,
 Proof. exact ptp_laws. Qed.
 
 (* PARTIAL.  Full statement wanted: for the binary64 model,
-     forall d, in_i64 d ->
-       Z.abs (from_seconds (to_seconds d) - d) * 10^9 < Z.abs d + 10^9,
-     forall finite x, sign (from_seconds x) agrees with sign x,
-       x >= 2^31 -> from_seconds x = i64::MAX, x < -2^31 -> from_seconds x = i64::MIN.
+     forall d, in_i64 d -> ~ KnownClass_C32_roundtrip d ->
+       Z.abs (from_seconds (to_seconds d) - d) * 10^9 < Z.abs d + 10^9
+   (without the class exclusion it is refuted, see C32_roundtrip_refuted),
+   (sign preservation and saturation of from_seconds ARE proved on the
+   binary64 model for all doubles: C32_from_seconds_saturates, C32_from_seconds_sign).
    Proved here: the bound for the same computation in EXACT arithmetic
    ([roundtrip_exact]: seconds = d/(2^32-1), floor, fraction times 2^32-1,
    same saturation tests), i.e. the part of the error that is designed in
@@ -129,18 +130,35 @@ Proof. exact ptp_laws. Qed.
    of the four binary64 operations (relative 2^-53 each, i.e. below
    |d| 2^-50 units) are not bounded by a theorem; the binary64 model
    ([to_seconds], [from_seconds], bit-exact, executable) is compared with the
-   code on every run and the driver's monitor evaluates the 1e-9 bound, the
-   sign and the saturation on every float case. *)
+   code on every run and the driver's monitor evaluates the 1e-9 bound on
+   every round-trip case. *)
 Theorem C32_roundtrip_partial : forall d, in_i64 d ->
   Z.abs (roundtrip_exact d - d) * 10 ^ 9 < Z.abs d + 10 ^ 9 /\
   (0 <= d -> d <= roundtrip_exact d) /\ (d < 0 -> roundtrip_exact d < 0).
 Proof. exact roundtrip_exact_bound_sign. Qed.
 
-(* PARTIAL (see above): conversion from seconds on the binary64 model at the
-   boundary values, by evaluation: 2^31 s and f64::MAX saturate to i64::MAX,
+(* REFUTED on the code (new finding, not in DESIGN.md section 4).  The statement
+   "converting a duration to seconds and back changes it by less than one part
+   per billion plus one unit", i.e. [roundtrip_bound d] for all d, is FALSE for
+   the code: the bit-exact binary64 model returns d - 2 for d = -2100223
+   (-0.49 ms), where the allowance is 1.002 units; the implementation returns
+   the same (replayed by the driver on every run).  About 4e7 durations fail,
+   all in [KnownClass_C32_roundtrip] = (-10^9, -2^21] units; an exhaustive
+   run of the same arithmetic over [-2*10^9, 3*10^9) finds no failure outside
+   the class and none with an error above 2 units.  Not repaired by fix-c32
+   (see the builder's report for a candidate one-line repair: round the
+   fractional product instead of truncating it). *)
+Theorem C32_roundtrip_refuted :
+  exists d, in_i64 d /\ KnownClass_C32_roundtrip d /\
+            from_seconds (to_seconds d) = d - 2 /\ ~ roundtrip_bound d.
+Proof. exact roundtrip_refuted. Qed.
+
+(* conversion from seconds on the binary64 model at the boundary values, by
+   evaluation (instances of the two theorems below, plus the exact values
+   next to the thresholds): 2^31 s and f64::MAX saturate to i64::MAX,
    the double just below 2^31 does not, -2^31 s and below give i64::MIN,
    signs of the smallest subnormals and of the zeros are preserved *)
-Theorem C32_from_seconds_boundaries_partial :
+Theorem C32_from_seconds_boundaries :
   from_seconds (sf_of_bits f64_bits_2p31) = i64_max /\
   from_seconds (sf_of_bits f64_bits_below_2p31) = 2 ^ 63 - 2 ^ 32 + 4294966271 /\
   from_seconds (sf_of_bits f64_bits_m2p31) = i64_min /\
@@ -152,18 +170,28 @@ Theorem C32_from_seconds_boundaries_partial :
   from_seconds (sf_of_bits 0) = 0 /\ from_seconds (sf_of_bits (2 ^ 63)) = 0.
 Proof. exact from_seconds_boundaries. Qed.
 
-(* conversion from seconds saturates, on the bit-exact binary64 model, for
-   EVERY 64-bit pattern b that encodes a number of magnitude >= 2^31 s (biased
-   exponent field >= 1023+31) or an infinity (NaN patterns excluded): the
-   result is i64::MAX for positive and i64::MIN for negative inputs, so the
-   sign is preserved there too.  (Sign preservation for |x| < 2^31 is not
-   proved: it needs the rounding of x - floor(x) and of the product to stay in
-   [0, 2^32); it is monitored on every run.) *)
+(* Conversion from seconds saturates and preserves the sign, on the bit-exact
+   binary64 model, for EVERY 64-bit pattern b (all finite floating-point
+   seconds; infinities included in the first theorem, NaN excluded):
+   - magnitude >= 2^31 s (biased exponent field >= 1023+31): the result is
+     i64::MAX for positive and i64::MIN for negative inputs;
+   - every finite input: the result is non-negative for a clear sign bit and
+     non-positive for a set sign bit (in particular +-0 -> 0), and the code's
+     `(i << 32) | frac` never leaves the i64 range.
+   The proof follows the code: floor, the rounded subtraction x - floor x
+   stays in [0,1], the rounded product with 2^32-1 stays in [0, 2^32-1]
+   (monotonicity of rounding, Flocq), truncation, shift and or. *)
 Theorem C32_from_seconds_saturates : forall b, 0 <= b < 2 ^ 64 ->
   1054 <= (b / 2 ^ 52) mod 2 ^ 11 ->
   ((b / 2 ^ 52) mod 2 ^ 11 = 2047 -> b mod 2 ^ 52 = 0) ->
   from_seconds (sf_of_bits b) = if Z.testbit b 63 then i64_min else i64_max.
 Proof. exact from_seconds_saturates_bits. Qed.
+
+Theorem C32_from_seconds_sign : forall b, 0 <= b < 2 ^ 64 ->
+  (b / 2 ^ 52) mod 2 ^ 11 <> 2047 ->
+  let r := from_seconds (sf_of_bits b) in
+  in_i64 r /\ (if Z.testbit b 63 then r <= 0 else 0 <= r).
+Proof. exact from_seconds_sign_bits. Qed.
 
 (* non-vacuity: an era-crossing difference, saturating sums, i64::MIN *)
 Example C32_nonvacuous :
@@ -193,5 +221,7 @@ Print Assumptions C32_short_time32.
 Print Assumptions C32_poll.
 Print Assumptions C32_ptp.
 Print Assumptions C32_roundtrip_partial.
-Print Assumptions C32_from_seconds_boundaries_partial.
+Print Assumptions C32_roundtrip_refuted.
+Print Assumptions C32_from_seconds_boundaries.
 Print Assumptions C32_from_seconds_saturates.
+Print Assumptions C32_from_seconds_sign.
